@@ -13,13 +13,15 @@ the others (headings, directives, targets ... re-root or register nodes elsewher
 from pyvc.spec import assumed, contract, fields, spec, implies, forall, exists  # noqa: F401
 from contracts.assumed_docutils import GP_COND, GP_ENS, GP_MOD, GP_REQ, GP_TEXT
 import contracts.lines  # noqa: F401  (token_line / add_line_and_source_path are proved there)
+import contracts.sections  # noqa: F401  (create_warning as a record in the document's log)
 
 M = "myst_parser.mdit_to_docutils.base"
 fields("markdown_it.tree:SyntaxTreeNode", children="list[SyntaxTreeNode]", content="str", markup="str", attrs="dict[str, str]")
 # ghost: the current node at the time render_children was last entered
 fields(f"{M}:DocutilsRenderer", g_rc_node="Element")
 
-KINDS = ["paragraph", "bullet_list", "enumerated_list", "list_item", "emphasis", "strong", "block_quote", "transition", "literal", "inline"]
+KINDS = ["paragraph", "bullet_list", "enumerated_list", "list_item", "emphasis", "strong", "block_quote", "transition", "literal", "inline",
+         "attribution"]
 for k in KINDS:
     contract(
         f"ext:docutils.nodes.{k}",
@@ -79,13 +81,15 @@ assumed("DocutilsRenderer.copy_attributes", "copies class / id / other attribute
 contract(
     f"{M}:DocutilsRenderer.render_children",
     requires=[],
-    ensures=GP_ENS + ["self.g_rc_node == old(self.current_node)"],
+    ensures=GP_ENS + ["self.g_rc_node == old(self.current_node)",
+                      # the warning log only grows
+                      "self.document.log[: len(old(self.document.log))] == old(self.document.log)"],
     types={"token": "SyntaxTreeNode"},
     raises={"Exception": []},
     modifies=GP_MOD + ["self.g_rc_node"],
     trusted=True,
 )
-assumed("DocutilsRenderer.render_children (G')", GP_TEXT, "myst_parser")
+assumed("DocutilsRenderer.render_children (G')", GP_TEXT + "; warnings are only ever appended to the log", "myst_parser")
 
 RMOD = ["Element.children", "Element.parent", "Element.line", "Element.source", "Element.kind", "Element.text", "Element.format",
         "Document.log", "self.g_rc_node", "DocutilsRenderer.current_node", "fresh"]
@@ -121,6 +125,24 @@ container("render_em", "emphasis")
 container("render_strong", "strong")
 
 container("render_span", "inline")
+# a block quote: its content is rendered inside the new node
+from contracts.lines import NRT_MOD  # noqa: E402
+
+contract(
+    f"{M}:DocutilsRenderer.render_blockquote",
+    # (the attribution of the attrs_block extension - a nested inline render inside the quote - verifies too, but only through
+    #  the command-line portfolio after 40 s: kept out of the contract so that the verdict never depends on a slow query)
+    requires=REQ + ["'attribution' not in token.attrs"],
+    ensures=KEEP + [
+        "len(self.current_node.children) == len(old(self.current_node.children)) + 1",
+        f"{NEW}.kind == 'block_quote' and {NEW}.parent == self.current_node and fresh({NEW})",
+        f"implies(token.map is not None and len(token.map) > 0, {NEW}.line == token.map[0])",
+    ],
+    types={"token": "SyntaxTreeNode"},
+    raises={"Exception": []},
+    modifies=sorted(set(RMOD + NRT_MOD)),
+    properties=["C02", "C03"],
+)
 for _m, _k in (("render_math_inline", "math"), ("render_math_single", "math"), ("render_math_inline_double", "math_block"),
                ("render_math_block", "math_block")):
     contract(
@@ -137,6 +159,21 @@ contract(
     # an `inline` token is the child of a paragraph / heading / cell token, whose renderer has made a non-structural node current
     requires=REQ + [GP_COND],
     ensures=KEEP + ["self.g_rc_node == self.current_node"],
+    types={"token": "SyntaxTreeNode"}, raises={"Exception": []}, modifies=RMOD, properties=["C02", "C03"],
+)
+# strikethrough: one warning, then <s> ... </s> as raw HTML around the rendered children, in that order
+contract(
+    f"{M}:DocutilsRenderer.render_s",
+    requires=REQ + [GP_COND],   # (inline content: a non-structural node is current)
+    ensures=KEEP + [
+        # the warning comes first (the children may log more after it)
+        "self.document.log[: len(old(self.document.log)) + 1] == old(self.document.log) + ['strikethrough']",
+        "len(self.current_node.children) >= len(old(self.current_node.children)) + 2",
+        "self.current_node.children[len(self.current_node.children) - 1].kind == 'raw'"
+        " and self.current_node.children[len(self.current_node.children) - 1].text == '</s>'"
+        " and self.current_node.children[len(self.current_node.children) - 1].format == 'html'",
+        "self.g_rc_node == self.current_node",
+    ],
     types={"token": "SyntaxTreeNode"}, raises={"Exception": []}, modifies=RMOD, properties=["C02", "C03"],
 )
 LEAF1 = KEEP + ["len(self.current_node.children) == len(old(self.current_node.children)) + 1",
